@@ -412,6 +412,24 @@ theorem trios_follow_child (samples : List String) (trios : List Trio) :
     rw [htr]
     exact List.filter_sublist
 
+/-- **trio_members_share_family**: the union–find of `setup_families` (merge father–child and mother–child, the
+minimum as representative) puts the three individuals of every kept trio into one family — the family that handles the
+trio: father, mother and child are members of it (as far as they are samples to be phased). -/
+theorem trio_members_share_family (samples : List String) (trios : List Trio) (t : Trio) (ht : t ∈ trios)
+    (F : Family) (hF : F ∈ setupFamilies samples trios) (htF : t ∈ F.trios) :
+    (t.father ∈ samples → t.father ∈ F.members) ∧ (t.mother ∈ samples → t.mother ∈ F.members) ∧
+    (t.child ∈ samples → t.child ∈ F.members) := by
+  obtain ⟨_, hm, htr⟩ := (mem_setupFamilies samples trios F).mp hF
+  obtain ⟨hd, hj⟩ := finalClasses_spec samples trios
+  obtain ⟨hf, hmo⟩ := hj t ht
+  rw [htr] at htF
+  have hc : repOf (finalClasses samples trios) t.child = F.rep := by simpa using (List.mem_filter.mp htF).2
+  have e1 := repOf_eq_of_mem _ hd t.father t.child hf
+  have e2 := repOf_eq_of_mem _ hd t.mother t.child hmo
+  rw [hm]
+  refine ⟨fun h => List.mem_filter.mpr ⟨h, by simp [← e1, hc]⟩, fun h => List.mem_filter.mpr ⟨h, by simp [← e2, hc]⟩,
+    fun h => List.mem_filter.mpr ⟨h, by simp [hc]⟩⟩
+
 /-- a quartet (two PED lines, second child first in sample order) and an unrelated sample: two families, processed in
 the order of their smallest names; the children keep the PED order -/
 example : setupFamilies ["S0", "Z0", "M0", "D0", "F0"] [⟨"F0", "M0", "Z0"⟩, ⟨"F0", "M0", "D0"⟩] =
